@@ -171,16 +171,16 @@ pub fn run(args: &Args) -> Report {
                 let mut n = 0u64;
                 while !stop.load(Relaxed) {
                     n += 1;
-                    let target = { ids.lock().unwrap().last().cloned() };
+                    let target = { ids.lock().unwrap_or_else(|e| e.into_inner()).last().cloned() };
                     let sem = match (n % 3, target) {
                         (0, _) | (_, None) => SemEvent { id: r.arr32(), pubkey: crate::dbgen::author(8), sig: [2; 64], kind: 1, created_at: 5, tags: vec![], content: "n".into() },
                         (_, Some(t)) => SemEvent { id: r.arr32(), pubkey: crate::dbgen::author(9), sig: [2; 64], kind: 5, created_at: 5, tags: vec![vec!["e".into(), hex(&r.arr32())], vec!["e".into(), hex(&t)]], content: String::new() },
                     };
                     if let Some(ev) = Ev::new(sem) {
-                        let _g = quiet.lock().unwrap();
-                        match st.store_event(&pocket_types::OwnedEvent(ev.bytes.clone())) {
-                            Ok(_) => counts.0.fetch_add(1, Relaxed),
-                            Err(_) => counts.1.fetch_add(1, Relaxed),
+                        let _g = quiet.lock().unwrap_or_else(|e| e.into_inner());
+                        match catch(|| st.store_event(&pocket_types::OwnedEvent(ev.bytes.clone())).is_ok()) {
+                            Ok(true) => counts.0.fetch_add(1, Relaxed),
+                            _ => counts.1.fetch_add(1, Relaxed),
                         };
                     }
                     std::thread::sleep(std::time::Duration::from_micros(150));
@@ -393,14 +393,18 @@ pub fn run(args: &Args) -> Report {
                     .unwrap_or(Err("thread panicked".into()))
                 } else {
                     let ev = pocket_types::OwnedEvent(e.bytes.clone());
-                    store.store_event(&ev).map_err(|e| format!("{e}"))
+                    // (a store working on damaged bytes may panic: the references are looked at before anything else)
+                    match catch(|| store.store_event(&ev).map_err(|e| format!("{e}"))) {
+                        Ok(r) => r,
+                        Err(p) => Err(format!("store_event panicked: {} at {}", p.message, p.location)),
+                    }
                 };
                 let off = match res {
                     Ok(o) => o,
                     Err(err) => {
                         // every event of this history is acceptable on its own; before giving up, look at what the
                         // references taken so far denote now
-                        let _reading = noise_quiet.lock().unwrap();
+                        let _reading = noise_quiet.lock().unwrap_or_else(|e| e.into_inner());
                         if check_tracked(&mut rep, store, &mut tracked, growths, &ctx) || !(rep.has_finding("bytes-changed") || rep.has_finding("bytes-changed-at-stable-address") || rep.has_finding("reference-target-unreadable")) {
                             rep.inconclusive.push(format!("store failed: {err}"));
                         }
@@ -409,7 +413,7 @@ pub fn run(args: &Args) -> Report {
                 };
                 stores_done += 1;
                 if e.sem.kind == 1 {
-                    noise_ids.lock().unwrap().push(e.sem.id);
+                    noise_ids.lock().unwrap_or_else(|e| e.into_inner()).push(e.sem.id);
                 }
                 let len_now = std::fs::metadata(dir.join("event.map")).map(|m| m.len()).unwrap_or(0);
                 if len_now > last_len {
@@ -417,7 +421,7 @@ pub fn run(args: &Args) -> Report {
                     last_len = len_now;
                 }
                 // all references taken so far must still be where the live mapping has their offsets
-                let _reading = noise_quiet.lock().unwrap();
+                let _reading = noise_quiet.lock().unwrap_or_else(|e| e.into_inner());
                 if !check_tracked(&mut rep, &store, &mut tracked, growths, &ctx) {
                     ok = false;
                     if rep.has_finding("bytes-changed") || rep.has_finding("bytes-changed-at-stable-address") || rep.has_finding("reference-target-unreadable") {
